@@ -625,7 +625,7 @@ def r4_channel_pairs(repo=None):
     condition) and its source lies *below* the source of another requested pair, decided component-wise (a helper of the accepted
     forms, see _below_helper_ok).  Any other filter (a comprehension `if`, set(), character-wise commonprefix / startswith on the
     raw strings, pruning without the recursion guard) is reported: it drops a channel the equivalent listing selects."""
-    r = Rule("C18.R4", "every requested channel is transferred: a (source, destination) pair is dropped only when another pair covers it")
+    r = Rule("C18.R4", "every requested channel is transferred: only a repeated (source, destination) pair is dropped, overlap is resolved per file")
     m = pyfront.mod("list_drf", repo)
     q = prepare_fn(m)
     f = m.fn(q)
@@ -835,9 +835,10 @@ EXPLANATION = (
     'store_true/store_false pairs on one destination; --only switches recursion off. R3: drf_command registers the four '
     'commands with the matching builders whose set_defaults(func=...) name the matching run functions; primitives are '
     'shutil.copy2, os.link/os.symlink, shutil.move; ls lists through ilsdrf/lsdrf. R4: the channel list is only split on '
-    'commas and mapped to (source, destination) pairs; a pair is dropped only if it repeats a kept one or, with recursion'
-    ' on, lies component-wise below another requested channel (so every file is transferred exactly once and no requested'
-    ' channel is lost). Does NOT decide byte identity (library code).')
+    'commas and mapped to (source, destination) pairs; only a pair that repeats a kept one is dropped; pruning a channel '
+    'that lies below another requested one is reported (the other listing need not cover it); overlap is resolved per '
+    'file: the per-file loop of every command skips a destination path that was transferred already (`if D in seen: '
+    'continue; seen.add(D)`, the only conditional skip R1 accepts). Does NOT decide byte identity (library code).')
 TECHNIQUE = (
     'Python ast; alpha-equivalence of sibling commands; loop-carried dependence of the destination; option-table vs '
     'signature agreement; registry/table checks')
